@@ -1,5 +1,6 @@
 """C04 - the truncated effective Hamiltonian has the exact spectrum to the requested order."""
 from .common import Decision, run_units
+from .implicit_props import specs_direct
 from .series_props import fold_canaries
 from .hermitian_common import specs_hermitian, LEAN_SETTING_NOTE, LEAN_VACUITY
 
@@ -10,7 +11,7 @@ LEAN = ["PV.C04_charpoly_similarity", "PV.C04_charpoly_truncation", "PV.C04_trun
 
 def check(tier, seed):
     d = Decision("C04", tier, seed)
-    d.add_units(fold_canaries(run_units(specs_hermitian(tier))))
+    d.add_units(fold_canaries(run_units(specs_hermitian(tier) + specs_direct(tier))))
     d.add_lean(LEAN + LEAN_VACUITY)
     d.premises += [["C01", "U_inv H U = H_tilde (Lean: PV.C01_similarity)"], ["C02", "U_inv U = U U_inv = 1 (Lean: PV.C02_unit_left / right)"]]
     d.assumptions += [LEAN_SETTING_NOTE,
